@@ -64,7 +64,7 @@ def same_grant(a, b):
     return a['pool'] == b['pool'] and a['exclusive'] == b['exclusive'] and a['cputype'] == b['cputype'] and a['portion'] == b['portion']
 
 
-def trace_terms(recs, cfgs=None):
+def trace_terms(recs, cfgs=None, permissive=False):
     """recs: records of one script (Setup first). Returns (coq term of the segments, stats)."""
     cids = {}
     def cidx(c):
@@ -117,9 +117,13 @@ def trace_terms(recs, cfgs=None):
             pg = {g['id']: g for g in (prev['ta']['grants'] or [])}
             ops = []
             # containers whose grant was (re)applied in this request were released and allocated again
-            touched = {call[1] for call in (rec.get('calls') or []) if call[0] == 'SetCPUShares'} if rec['op'] in ('Synchronize', 'Reconfigure', 'Restart') else set()
+            touched = {call[1] for call in (rec.get('calls') or []) if call[0] in ('SetCPUShares', 'SetCpusetCpus', 'SetCpusetMems')} if rec['op'] in ('Synchronize', 'Reconfigure', 'Restart') else set()   # (with pinCPU off applyGrant only writes the memory pinning)
             rel = sorted(i for i in pg if i not in grants or not same_grant(pg[i], grants[i]) or i in touched)
             new = sorted((i for i in grants if i not in pg or not same_grant(pg[i], grants[i]) or i in touched), key=order)
+            if permissive:
+                # second opinion when the order reconstructed from the call trace makes a capacity test fail:
+                # the state after the group does not depend on the order, only the tests on the way do
+                new.sort(key=lambda i: 1 if grants[i]['exclusive'] else 0)
             for i in rel:
                 ops.append('ORelease %d' % cidx(i))
                 stats['releases'] += 1
@@ -181,13 +185,13 @@ def prefs_cases(recs):
     return out, seen
 
 
-def case_file(path, traces, cfgs=None, guards=False):
+def case_file(path, traces, cfgs=None, guards=False, permissive=False):
     """traces: list of (name, recs). Writes a .v file printing one result line per trace."""
     allstats = {}
     with open(path, 'w') as f:
         f.write(HDR)
         for k, (name, recs) in enumerate(traces):
-            term, st = trace_terms(recs, cfgs.get(name) if cfgs else None)
+            term, st = trace_terms(recs, cfgs.get(name) if cfgs else None, permissive)
             allstats[name] = st
             f.write('Definition T%d : list (tree * list (list op * obs)) := %s.\n' % (k, term))
             f.write('Definition R%d := Eval vm_compute in check_segments 0 T%d.\n' % (k, k))
